@@ -19,6 +19,7 @@ struct Op {
     int wsgarbage = 0;           // how the interior of the caller workspace is pre-filled (Garbage enum)
     // right-hand sides
     int nrhs = 1, ldpad = 0; uint64_t rhs_seed = 0;
+    int ldxpad = -1;             // leading dimension of X = n + ldxpad (expert drivers); -1: same as B
     // matrix creation
     int storage = 0;             // 0 SLU_NC, 1 SLU_NR
     int mat = 0;                 // index into TaskPlan::mats (kind == new)
